@@ -51,7 +51,8 @@ ASSUMPTIONS = [
     "(docstring of Device.use_etching); only the permittivity claim is asserted for continuous/etched devices — the "
     "property text claims dispersion coefficients for discrete outputs only",
     "discrete parameters are generated >= 0.15 away from rounding boundaries so float32 cannot flip an index",
-    "tolerances: 1e-10 (f64) / 5e-6 (f32) relative for blended values, 1e-12 / 2e-6 for selected materials; "
+    "tolerances: 1e-10 (f64) / 5e-6 (f32; 5e-5 for 3x3 tensor inverses, times beta after smoothing+projection) "
+    "relative for blended values, 1e-12 / 2e-6 (2e-5 tensors) for selected materials; "
     "'unchanged' and 'history = last' are exact (bit equality)",
     "devices do not overlap each other (the property says what *a* device cell gets); static objects may overlap them",
 ]
@@ -492,8 +493,9 @@ def body(ctx, case):
     dt_w = config.time_step_duration / scenes.make_config(
         {"shape": case["shape"], "steps": 4, "grid": case["grid"]}, lane).time_step_duration
     eps_bg = _inv_comp(fresh["inv_permittivities"])  # pre-device permittivity (components)
-    tol_blend = ctx.tol(1e-10, 5e-6)
-    tol_pick = ctx.tol(1e-12, 2e-6)
+    # float32 3x3 inverses carry ~1e-6 * condition number (<= ~10 here); scalar inverses one ulp
+    tol_blend = ctx.tol(1e-10, 5e-6 if C < 9 else 5e-5)
+    tol_pick = ctx.tol(1e-12, 2e-6 if C < 9 else 2e-5)
 
     kinds = sorted({d["kind"] for d in devices})
     ctx.classify(*("kind=" + k for k in kinds), *("chain=" + d["chain"] for d in devices), "components=%d" % C,
@@ -543,8 +545,7 @@ def body(ctx, case):
             mats = sorted(dev["materials"], key=lambda m: _mat_tensor(m)[0, 0])
             name = dev["name"]
             if dev["kind"] in ("cont", "etch"):
-                ctx.check(float(v.min()) >= -1e-9 and float(v.max()) <= 1 + 1e-9, "model chain output left [0,1]",
-                          observed=[float(v.min()), float(v.max())])
+                assert float(v.min()) >= -1e-9 and float(v.max()) <= 1 + 1e-9, "model chain output left [0,1]"
                 if dev["kind"] == "cont":
                     Ta, Tb = _mat_tensor(mats[0]), _mat_tensor(mats[1])
                     T = Ta + vexp[..., None, None] * (Tb - Ta)
@@ -630,7 +631,7 @@ def body(ctx, case):
 
 
 SUBS = [
-    Sub(name="device_histories", body=body, strategy=lambda ctx: case_strategy(ctx), quick=16, thorough=800,
+    Sub(name="device_histories", body=body, strategy=lambda ctx: case_strategy(ctx), quick=16, thorough=1200,
         lanes=("f64", "f32"), f32_fraction=0.25, quick_shards=2,
         rule="random devices + neighbours, cumulative apply_params history against a per-cell numpy model"),
 ]
